@@ -1338,7 +1338,8 @@ fn permutations(n: usize) -> Vec<Vec<usize>> {
 }
 
 fn graphs_layer(rep: &mut Report, tier: Tier) {
-    let n = tier.pick(2usize, 3usize);
+    // both tiers: the full search takes seconds
+    let n = tier.pick(3usize, 3usize);
     // every digraph on n nodes (self loops included), callee lists in ascending order
     let bits = n * n;
     let jobs: Vec<(u32, u32)> = (0..(1u32 << bits)).flat_map(|m| (0..(1u32 << n)).map(move |p| (m, p))).collect();
@@ -1410,7 +1411,8 @@ fn graphs_layer(rep: &mut Report, tier: Tier) {
 
 pub fn run(tier: Tier) -> i32 {
     let mut rep = Report::new("C09", tier);
-    let depth = tier.pick(1usize, 2usize);
+    // both tiers: the full search takes seconds
+    let depth = tier.pick(2usize, 2usize);
     let exprs = typed_exprs(depth);
     // batches of let-bindings per function
     let batch = 24;
